@@ -261,14 +261,33 @@ def coq_progs(tagss: List[List[str]]) -> str:
     return f"(fun j : nat => match j with {arms} | _ => [] end)"
 
 
-def model_reads(tagss: List[List[str]], scheds: List[List[int]], tag: str) -> List[List[List[int]]]:
-    """for each schedule: for each thread, the values (tokens; 0 = initial) its reads of GRegistry (1) return, oldest first"""
-    exprs = []
+WATCHED = "[GRegistry; GVcDs; GVcDc]"
+
+
+def model_obs(tagss: List[List[str]], scheds: List[List[int]], tag: str) -> List[List[List[Tuple[int, int]]]]:
+    """element 0: each call's solo observations; then, for each schedule, each thread's observations under that schedule
+    (chronological (global, value) pairs for the registry and the two counters; registry values are tokens = thread + 1, 0 = initial)"""
     n = len(tagss)
+    progs = coq_progs(tagss)
+    flt = f"(fun l => rev (filter (fun o => mem (fst o) {WATCHED}) l))"
+    exprs = [f"map (fun i => {flt} (solo_result zero_store ({progs} i))) (seq 0 {n})"]
     for s in scheds:
         ss = "[" + "; ".join(str(x) for x in s) + "]"
-        exprs.append(f"map (fun i => rev (map snd (filter (fun o => Nat.eqb (fst o) GRegistry) (obs_of {ss} {coq_progs(tagss)} i)))) (seq 0 {n})")
+        exprs.append(f"map (fun i => {flt} (obs_of {ss} {progs} i)) (seq 0 {n})")
     return common.coq_eval(HEADER, exprs, tag, shard=40)
+
+
+def engine_obs(events: List[dict]) -> List[Tuple[int, int]]:
+    out = []
+    for e in events:
+        if e["tag"] == "TRegGet":
+            o = e.get("owner", -1)
+            out.append((1, o + 1 if o is not None and o >= 0 else 0))
+        elif e["tag"] == "TVcDs":
+            out.append((2, int(e.get("value", -1))))
+        elif e["tag"] == "TVcDc":
+            out.append((3, int(e.get("value", -1))))
+    return out
 
 
 def model_shapes(items: List[Tuple[str, List[str]]], tag: str) -> List[bool]:
@@ -313,6 +332,12 @@ def scenarios(rng, tier: str) -> List[dict]:
                         call("run", "B", "DS_rB <- DS_1 * 3; DS_rB2 <- DS_1 - 1;", plain, dplain)]})
     S.append({"name": "error-message:runtime-error-vs-run", "class": "dataset-output",
               "calls": [call("run", "A", "DS_rA <- DS_1 / DS_1;", plain, dplain), call("run", "B", "DS_rB <- DS_1 * 3; DS_rB2 <- DS_1 - 1;", plain, dplain)]})
+    S.append({"name": "virtual-counter:error-name-vs-run", "class": "virtual-counter",
+              "calls": [call("semantic", "A", "DS_rA := DS_1[filter Me_1 > 0][calc Me_3 := Me_1 + 1, Me_4 := Me_9 + 1];", plain),
+                        call("run", "B", "DS_rB <- (DS_1 + 1) * (DS_1 - 1); DS_rB2 <- DS_1[calc Me_2 := Me_1 * 2][filter Me_2 > 0];", plain, dplain)]})
+    S.append({"name": "virtual-counter:error-name-run-vs-run", "class": "virtual-counter",
+              "calls": [call("run", "A", "DS_rA := DS_1[filter Me_1 > 0][calc Me_3 := Me_1 + 1, Me_4 := Me_9 + 1];", plain, dplain),
+                        call("run", "B", "DS_rB <- (DS_1 + 1) * (DS_1 - 1); DS_rB2 <- DS_1[calc Me_2 := Me_1 * 2][filter Me_2 > 0];", plain, dplain)]})
     S.append({"name": "parse-mix:prettify-create_ast", "class": "parse",
               "calls": [call("prettify", "A", "DS_rA <- DS_1 + 1; /* note */ DS_x := DS_1[calc Me_2 := Me_1 * 2];"),
                         call("create_ast", "B", "DS_rB <- inner_join(DS_1, DS_2 using Id_1);")]})
@@ -326,7 +351,7 @@ def scenarios(rng, tier: str) -> List[dict]:
         from props.c32 import corpus_cases
         cs = [c for c in corpus_cases(rng, 60 if tier == "quick" else 400) if len(c["script"]) < 1500]
         rng.shuffle(cs)
-        k = 3 if tier == "quick" else 20
+        k = 2 if tier == "quick" else 20
         for a, b in zip(cs[0:2 * k:2], cs[1:2 * k:2]):
             S.append({"name": f"corpus:{a['shape']}+{b['shape']}", "class": "corpus",
                       "calls": [call("run", "A", a["script"], a["structs"], a["data"], **a["kw"]), call("run", "B", b["script"], b["structs"], b["data"], **b["kw"])]})
@@ -350,7 +375,7 @@ def witness_schedules(tagss: List[List[str]]) -> List[Tuple[str, List[Tuple[int,
 
     for a in range(n):
         for b in range(n):
-            if a == b:
+            if a == b or (n > 2 and a != 0):      # triples: thread 0 is the reader (the other directions are covered by the pairs)
                 continue
             ta, tb = tagss[a], tagss[b]
             # registry: read after own set
@@ -366,6 +391,8 @@ def witness_schedules(tagss: List[List[str]]) -> List[Tuple[str, List[Tuple[int,
                 for wtag in ("TDsOutSet", "TDsOutClear"):
                     if wtag in tb:
                         out.append((f"witness:dataset_output:{wtag}:{a}<-{b}", [(a, pause_after_write(ta, sets[-1])), (b, pause_after_write(tb, tb.index(wtag)))]))
+            if "TVcDs" in ta and "TVcDs" in tb:
+                out.append((f"witness:vcounter:{a}<-{b}", [(a, pause_before(ta, ta.index("TVcDs"))), (b, pause_after_write(tb, tb.index("TVcDs")))]))
             if "TRaise" in ta and "TDsOutSet" not in ta[max(0, len(ta) - 3):] and "TDsOutSet" in tb:
                 # a raises late (execution error): b's set must be in force at that moment -> b stops right after a set, a runs to the end
                 out.append((f"witness:dataset_output:late-raise:{a}<-{b}", [(b, pause_after_write(tb, tb.index("TDsOutSet"))), (a, 10 ** 6)]))
@@ -390,18 +417,28 @@ def explore_schedules(rng, tagss: List[List[str]], budget: int, exhaustive: bool
 
 
 # ------------------------------------------------------------------------------------------------ the check
-def classify_cause(sc: dict, f: Forced, i: int, solo_res: dict) -> str:
-    kinds = "-".join(c["kind"] for c in sc["calls"])
-    foreign = [e for e in f.events[i] if e["tag"] == "TRegGet" and e.get("owner") not in (i, None)]
-    res = f.results[i] or {}
-    if foreign and sc["class"] in ("viral-registry", "mixed"):
-        return f"race:viral-registry:{kinds}"
+def cause_key(calls: List[dict], i: int, solo_res: dict, res: dict, foreign: bool, default_class: str) -> str:
+    """stable key: which global, the affected call's kind, the kinds of the other state-touching calls it ran with"""
+    import re
+    others = sorted({c["kind"] for j, c in enumerate(calls) if j != i and c["kind"] in ("run", "semantic")})
+    kinds = calls[i]["kind"] + "-" + ("+".join(others) if others else "none")
     sm, cm = (solo_res.get("msg") or ""), (res.get("msg") or "")
-    if "Please check transformation with output Dataset" in sm + cm and sm != cm:
-        return f"race:dataset-output:{kinds}"
+    same_but_msg = {k: v for k, v in solo_res.items() if k != "msg"} == {k: v for k, v in res.items() if k != "msg"}
+    if same_but_msg and sm != cm:
+        vc = lambda m: re.sub(r"__VD[SC]_\d+__", "__V__", m)
+        if vc(sm) == vc(cm):
+            return f"race:virtual-counter:{kinds}"
+        do = lambda m: re.sub(r" Please check transformation with output Dataset \w+", "", vc(m))
+        if do(sm) == do(cm):
+            return f"race:dataset-output:{kinds}"
     if foreign:
         return f"race:viral-registry:{kinds}"
-    return f"race:{sc['class']}:{kinds}"
+    return f"race:{default_class}:{kinds}"
+
+
+def classify_cause(sc: dict, f: Forced, i: int, solo_res: dict) -> str:
+    foreign = any(e["tag"] == "TRegGet" and e.get("owner") not in (i, None) for e in f.events[i])
+    return cause_key(sc["calls"], i, solo_res, f.results[i] or {}, foreign, sc["class"])
 
 
 def lock_scope_check(ctx) -> None:
@@ -464,7 +501,7 @@ def stress(ctx, pools: List[Tuple[str, str, List[dict]]], threads_n: int, iters:
         reset_globals()
         bad: List[Tuple[int, dict]] = []
         lock = threading.Lock()
-        stop = time.time() + (60 if ctx.tier == "quick" else 300)
+        stop = time.time() + (25 if ctx.tier == "quick" else 300)
 
         def worker(w):
             for it in range(iters):
@@ -493,7 +530,7 @@ def stress(ctx, pools: List[Tuple[str, str, List[dict]]], threads_n: int, iters:
         if bad:
             mism += len(bad)
             k, r = bad[0]
-            key = STRESS_KEY.get(pname, f"race:{pclass}:stress")
+            key = cause_key(calls, k, json.loads(solos[k]), r, False, pclass)
             ctx.violation(key, f"stress pool {pname}: {len(bad)}/{n} concurrent results differ from the solo result (1 microsecond switch interval, "
                                f"{threads_n} threads); e.g. call {calls[k]['name']} got {canon(r)[:200]}",
                           {"mode": "stress", "pool": pname, "calls": [strip_call(c) for c in calls], "threads": threads_n, "iterations": iters,
@@ -504,15 +541,47 @@ def stress(ctx, pools: List[Tuple[str, str, List[dict]]], threads_n: int, iters:
     ctx.log(f"stress: {total} concurrent calls, {mism} results differ from solo")
 
 
-# a mismatch seen by the free-running stress run is the same defect as the one the forced schedules of that class pin down
-STRESS_KEY = {"viral-rules": "race:viral-registry:run-run", "error-messages": "race:dataset-output:semantic-run",
-              "period-formats": "race:tp-config:run-run", "parse-mix": "race:parse:prettify-create_ast"}
-
-
 def strip_call(c: dict) -> dict:
+    def js(v):
+        if isinstance(v, (list, tuple)):
+            return [js(x) for x in v]
+        return v if isinstance(v, (int, float, bool, str, type(None), dict)) else str(v)
     return {"kind": c["kind"], "name": c["name"], "script": c["script"], "structs": c["structs"],
             "data": {k: (v.to_dict(orient="list") if hasattr(v, "to_dict") else str(v)) for k, v in (c["data"] or {}).items()},
-            "kw": {k: str(v) for k, v in c["kw"].items()}}
+            "kw": {k: js(v) for k, v in c["kw"].items()}}
+
+
+def unstrip_call(c: dict) -> dict:
+    import pandas as pd
+    from pathlib import Path
+    data = {k: (pd.DataFrame(v) if isinstance(v, dict) else Path(v)) for k, v in (c.get("data") or {}).items()}
+    kw = dict(c.get("kw") or {})
+    if isinstance(kw.get("value_domains"), list):
+        kw["value_domains"] = [Path(x) for x in kw["value_domains"]]
+    return call(c["kind"], c["name"], c["script"], c.get("structs"), data, **kw)
+
+
+def stored_scenarios() -> List[dict]:
+    """forced schedules that once made a result differ (corpus/C17/*.json), replayed before anything else"""
+    out = []
+    d = common.CORPUS / "C17"
+    for p in sorted(d.glob("sched_*.json")) if d.is_dir() else []:
+        try:
+            o = json.loads(p.read_text())
+            out.append({"name": f"stored:{p.stem}", "class": o.get("class", "stored"), "calls": [unstrip_call(c) for c in o["calls"]],
+                        "stored_schedule": [tuple(x) for x in o["schedule"]]})
+        except Exception as e:
+            print(f"[warn] unreadable stored schedule {p}: {e}", flush=True)
+    return out
+
+
+def store_schedule(key: str, sc: dict, applied) -> None:
+    import hashlib
+    d = common.CORPUS / "C17"
+    d.mkdir(parents=True, exist_ok=True)
+    h = hashlib.sha1(key.encode()).hexdigest()[:10]
+    (d / f"sched_{h}.json").write_text(json.dumps({"key": key, "class": sc["class"], "calls": [strip_call(c) for c in sc["calls"]],
+                                                   "schedule": applied}, indent=1, default=str) + "\n")
 
 
 def run_forced(sc: dict, sched: List[Tuple[int, int]]) -> Forced:
@@ -526,8 +595,8 @@ def run(ctx):
     engine.install(need_parser=True)
     proved = ctx.prove("C17")
     lock_scope_check(ctx)
-    scs = scenarios(ctx.rng, ctx.tier)
-    budget = 10 if ctx.tier == "quick" else 60
+    scs = stored_scenarios() + scenarios(ctx.rng, ctx.tier)
+    budget = 5 if ctx.tier == "quick" else 60
     hist: Dict[str, int] = {}
     shape_items: List[Tuple[str, List[str]]] = []
     shape_names: List[str] = []
@@ -553,7 +622,7 @@ def run(ctx):
         if not all(stable):
             continue
         sc["solos"], sc["tags"] = solos, tagss
-        scheds = witness_schedules(tagss) + explore_schedules(ctx.rng, tagss, budget if sc["class"] != "corpus" else max(3, budget // 3),
+        scheds = ([("stored", sc["stored_schedule"])] if sc.get("stored_schedule") else []) + witness_schedules(tagss) + explore_schedules(ctx.rng, tagss, budget if sc["class"] != "corpus" else max(3, budget // 3),
                                                               exhaustive=(ctx.tier == "thorough" and sc["class"] in ("viral-registry", "dataset-output")))
         for sname, sched in scheds:
             f = run_forced(sc, sched)
@@ -571,6 +640,8 @@ def run(ctx):
                 if canon(f.results[i]) != canon(solos[i]):
                     n_viol_sched += 1
                     key = classify_cause(sc, f, i, solos[i])
+                    if ctx._known_key(key) is None and not sc["name"].startswith("stored:"):
+                        store_schedule(key, sc, f.applied)
                     ctx.violation(key, f"{sc['name']}, schedule {sname} {f.applied}: call {c['name']} ({c['kind']}) returns "
                                        f"{canon(f.results[i])[:220]} but alone it returns {canon(solos[i])[:220]}",
                                   {"mode": "forced", "scenario": sc["name"], "calls": [strip_call(x) for x in sc["calls"]], "schedule": f.applied,
@@ -598,34 +669,43 @@ def run(ctx):
                 bysc.setdefault(sc["name"], []).append(idx)
             for scname, idxs in bysc.items():
                 tagss = pending_model[idxs[0]][3]
-                preds = model_reads(tagss, [pending_model[i][4] for i in idxs], "c17m")
-                for i, pred in zip(idxs, preds):
+                res = model_obs(tagss, [pending_model[i][4] for i in idxs], "c17m")
+                msolo = [[tuple(x) for x in th] for th in res[0]]
+                for i, pred in zip(idxs, res[1:]):
                     sc, sname, f, _, msched = pending_model[i]
                     for t in range(len(tagss)):
-                        eng = [e.get("owner") for e in f.events[t] if e["tag"] == "TRegGet"]
-                        eng = [(-1 if o in (-1, -2) else o) for o in eng]
-                        mod = [int(v) - 1 for v in pred[t]]          # token = thread + 1; 0 (initial store) -> -1
-                        # the engine may stop early or branch after reading a foreign registry: compare up to the first foreign read
-                        m = min(len(eng), len(mod))
-                        cut = next((k for k in range(m) if mod[k] != t), m - 1) + 1 if m else 0
+                        eng = engine_obs(f.events[t])
+                        mod = [tuple(x) for x in pred[t]]
+                        # once a call has observed a foreign value the engine may branch differently from its solo trace (the model
+                        # program IS the solo trace): compare up to and including the first observation that differs from solo
+                        div = next((k for k in range(min(len(mod), len(msolo[t]))) if mod[k] != msolo[t][k]), None)
+                        cut = (div + 1) if div is not None else len(mod)
                         cmpd += 1
-                        if eng[:cut] != mod[:cut]:
+                        # the model tracks WHICH registry object a read returns, not the rules registered inside it: a call whose own
+                        # object was handed to another call (that call read this call's token) may be changed by the other call's
+                        # registrations and stop early -> only require the engine's observations to be a prefix of the model's
+                        shared = any((1, t + 1) in [tuple(x) for x in pred[u]] for u in range(len(tagss)) if u != t)
+                        if shared and div is None:
+                            bad = eng != mod[:len(eng)]
+                        else:
+                            bad = eng[:cut] != mod[:cut] or (div is None and len(eng) != len(mod))
+                        if bad:
                             dis += 1
-                            ctx.oblige(f"K: model = engine on the registry values read by call {t} of {scname} under schedule {sname}", False,
-                                       f"engine owners {eng}, model owners {mod}, model schedule {msched[:60]}")
-            ctx.oblige("K: the Gallina interleaving semantics predicts the owner of every registry value read under every forced schedule", dis == 0,
+                            ctx.oblige(f"K: model = engine on the global values read by call {t} of {scname} under schedule {sname}", False,
+                                       f"engine {eng}, model {mod}, model solo {msolo[t]}, model schedule {msched[:60]}")
+            ctx.oblige("K: the Gallina interleaving semantics predicts every registry / counter value read by every call under every forced schedule", dis == 0,
                        f"{dis} disagreements over {cmpd} (schedule, call) pairs")
             ctx.cov["model_vs_engine_pairs"] = cmpd
         except Exception as e:
             traceback.print_exc()
             ctx.oblige("K: model evaluation of the forced schedules ran", False, f"{type(e).__name__}: {e}"[:400])
     # ---- randomized stress
-    by = {s["name"]: s for s in scs}
+    by = {s["name"]: s for s in scs if "solos" in s or True}
     pools = [("viral-rules", "viral-registry", by["triple:three-viral-rules"]["calls"]),
              ("period-formats", "tp-config", by["period-format:vtl-vs-sdmx_reporting"]["calls"] + by["period-format:natural-vs-sdmx_gregorian"]["calls"][:1]),
              ("error-messages", "dataset-output", by["error-message:semantic-error-vs-run"]["calls"] + by["error-message:runtime-error-vs-run"]["calls"][:1]),
              ("parse-mix", "parse", by["parse-mix:prettify-create_ast"]["calls"] + [call("create_ast", "C", "DS_rC := DS_1[filter Me_1 > 0];")])]
-    stress(ctx, pools, threads_n=4, iters=12 if ctx.tier == "quick" else 150)
+    stress(ctx, pools, threads_n=4, iters=8 if ctx.tier == "quick" else 150)
     ctx.cov["rule"] = ("forced: (scenario, schedule) pairs — model race witnesses, 2-switch schedules over the yield points of both calls (all of them in "
                        "thorough), random multi-switch schedules; stress: calls executed by 4 free-running threads with a 1 microsecond switch interval")
     ctx.trusted.append("the deterministic scheduler of harness/props/c17.py (semaphores; one engine thread runs at a time; every wait has a timeout) and the "
@@ -641,11 +721,7 @@ def replay(ctx, obj):
     engine.install(need_parser=True)
     import pandas as pd
 
-    def mk(c):
-        data = {k: (pd.DataFrame(v) if isinstance(v, dict) else v) for k, v in (c.get("data") or {}).items()}
-        kw = dict(c.get("kw") or {})
-        return call(c["kind"], c["name"], c["script"], c.get("structs"), data, **kw)
-    calls = [mk(c) for c in obj["calls"]]
+    calls = [unstrip_call(c) for c in obj["calls"]]
     if obj.get("mode") == "forced":
         solos = [solo(c)[0] for c in calls]
         f = Forced(calls)
